@@ -360,6 +360,7 @@ def _g12_one(prog, dg, adj, G, X, name, args, spec, r1, r2):
         if f is None:
             raise AnalysisError('DiGraph.%s not found' % name)
         hooks = _OpHooks(prog)
+        hooks.adjacency_field = adj
         I = Interp(prog, hooks, rule='R-G-1')
         path = I.new_path()
         res = I.call_function(FRef(f), [G] + args, [], path, f.node)
@@ -547,6 +548,20 @@ def rule_g3(prog, adj):
     if ok2:
         r.ok()
     else:
+        # is there a popped list at all?  A worklist that is there but not
+        # seeded with the argument is a defect; no recognisable worklist is
+        # another organisation of the search (no verdict)
+        popped = [oid for oid, h in p.heap.items() if h.kind == 'list' and
+                  any(e.kind == 'mutate' and e.name == 'pop' and
+                      isinstance(e.target, (Obj, Coll)) and
+                      getattr(e.target, 'oid', None) == oid
+                      for e in p.log)]
+        if not popped:
+            e = Inconclusive('R-G-3', 'no worklist (a list seeded with the '
+                             'argument and popped in a loop) recognised in '
+                             '%s' % f.short(), f.where())
+            e.partial = r
+            raise e
         fail('init-worklist', 'no worklist is initialised with every node '
              'of the argument')
         return r
@@ -587,6 +602,23 @@ def rule_g3(prog, adj):
     r.inst(condition='every node added is a successor (adjacency[popped]) of '
            'a node taken from the worklist', holds=ok3,
            parts=[repr(q)[:200] for q in loopparts])
+    # is the loop of the recognised form at all: contributions made inside
+    # `while <worklist>` over an iteration of some adjacency[...]
+    shaped = bool(loopparts) and all(
+        [g for g in q.gens if g[0] is None] and
+        len([g for g in q.gens if g[0] is not None]) == 1 and
+        isinstance([g for g in q.gens if g[0] is not None][0][1], App) and
+        [g for g in q.gens if g[0] is not None][0][1].op == 'item' and
+        [g for g in q.gens if g[0] is not None][0][1].args[0] ==
+        App('attr', G, Const(adj)) for q in loopparts)
+    if not shaped:
+        e = Inconclusive('R-G-3', 'the search loop of %s is not of the form '
+                         '`while worklist: x = pop; for y in adjacency[x]` '
+                         '(%s)' % (f.short(), [repr(q)[:120]
+                                               for q in loopparts][:2]),
+                         f.where())
+        e.partial = r
+        raise e
     if ok3:
         r.ok()
     else:
@@ -603,8 +635,12 @@ def rule_g3(prog, adj):
     if ok6:
         r.ok()
     else:
-        fail('exhaustion', 'the loop condition is not the emptiness of the '
-             'worklist')
+        # another way of running until exhaustion (while True / try pop)
+        # is not recognised: no verdict on this condition
+        e = Inconclusive('R-G-3', 'the loop condition of %s is not the '
+                         'worklist itself' % f.short(), f.where())
+        e.partial = r
+        raise e
     # (7) the scan of the successors of a node taken from the worklist is
     # not cut short
     cut = []
